@@ -83,9 +83,58 @@ def in_bounds(root, reg):
     return probs
 
 
+def effective_stores(a):
+    """the store log of an assembled array as seen through `a`: `a` itself, or a transposed view of the assembled array (selections permuted with the axes)"""
+    if not isinstance(a, Arr):
+        return []
+    if a.tags.get('stores'):
+        return a.tags['stores']
+    v, perms, seen = a, [], 0
+    while isinstance(v, Arr) and not v.tags.get('stores') and v.parents and seen < 6:
+        seen += 1
+        if v.origin == 'transpose' and 'perm' in v.tags:
+            perms.append(v.tags['perm'])
+            v = v.parents[0]
+        elif (not v.tags.get('is_reshape') and v.origin in ('copy', 'astype', 'ascontiguousarray')) or \
+                (v.tags.get('is_reshape') and len(v.shape) == len(v.parents[0].shape) and all(sz_eq(x, y) for x, y in zip(v.shape, v.parents[0].shape))):
+            v = v.parents[0]
+        elif v.tags.get('is_reshape') and [x for x in v.shape if not A.is_one(x)] and \
+                len([x for x in v.shape if not A.is_one(x)]) == len([x for x in v.parents[0].shape if not A.is_one(x)]) and \
+                all(sz_eq(x, y) for x, y in zip([x for x in v.shape if not A.is_one(x)], [x for x in v.parents[0].shape if not A.is_one(x)])) and not perms:
+            # a reshape that only inserts / removes unit axes
+            perms.append(('units', tuple(v.shape), tuple(v.parents[0].shape)))
+            v = v.parents[0]
+        else:
+            return []
+    if not (isinstance(v, Arr) and v.tags.get('stores')):
+        return []
+    out = []
+    for st in v.tags['stores']:
+        sel = list(st['sel'])
+        bad = False
+        for perm in reversed(perms):
+            if perm and perm[0] == 'units':
+                _, new_shape, old_shape = perm
+                it = iter([s_ for s_, n_ in zip(sel, old_shape) if not A.is_one(n_)])
+                dropped = [s_ for s_, n_ in zip(sel, old_shape) if A.is_one(n_)]
+                if any(s_[0] not in ('all', 'int') for s_ in dropped):
+                    bad = True
+                    break
+                sel = [('int', 0) if A.is_one(n_) else next(it) for n_ in new_shape]
+            else:
+                sel = [sel[p_] for p_ in perm]
+        if bad:
+            return []
+        rec = dict(st)
+        rec['sel'] = tuple(sel)
+        rec['through_transpose'] = bool(perms)
+        out.append(rec)
+    return out
+
+
 def analyse(root):
     """returns (records, problems) for one block-assembled array"""
-    stores = root.tags.get('stores', [])
+    stores = effective_stores(root)
     probs = []
     regs = [region(root, st['sel']) for st in stores]
     for st, rg in zip(stores, regs):
